@@ -228,7 +228,7 @@ class InteractiveEditor:
         self.meta = pyben.load(metafile)
         self.info = self.meta["info"]
 
-        self.args = {
+        self.current = {
             "url-list": self.meta.get("url-list", None),
             "httpseeds": self.meta.get("httpseeds", None),
             "announce": self.meta.get("announce-list", None),
@@ -236,6 +236,8 @@ class InteractiveEditor:
             "private": self.info.get("private", None),
             "comment": self.info.get("comment", None),
         }
+        # only the fields the user edits are handed to edit_torrent
+        self.args = {}
 
     def show_current(self):
         """
@@ -244,8 +246,8 @@ class InteractiveEditor:
         @Deprecated
         """
         out = "Current properties and values:\n"
-        longest = max(len(label) for label in self.args) + 3
-        for key, val in self.args.items():
+        longest = max(len(label) for label in self.current) + 3
+        for key, val in self.current.items():
             txt = (key.title() + ":").ljust(longest) + str(val)
             out += f"\t{txt}\n"
         showtext(out)
@@ -305,7 +307,7 @@ class InteractiveEditor:
             if prop.isdigit() and 0 < int(prop) < 6:
                 key = props[int(prop)]
                 key2 = args[int(prop)]
-                val = self.args.get(key2)
+                val = self.args.get(key2, self.current.get(key2))
                 showtext(
                     "Enter new property value or leave empty for no value.")
                 response = get_input(f"{key.title()} ({val}): ")
